@@ -235,6 +235,26 @@ example : ∃ e, align .nw (exCall [97, 122] [97]) = .error e := ⟨.illegalR 1,
 open Biogo.Properties.C08_lin in
 example : ∃ e, align .fit { exCall [97] [97] with mat := [[0, -1], [-1, 2]] } = .error e :=
   ⟨.wrongSize 2 3, by decide⟩
+/- matrix shapes relative to the 3-letter alphabet: an oversized square (5×5) is legal
+   (`align_legal_ok`: `alphaLen ≤ mat.length`), an oversized matrix with a ragged row beyond the
+   alphabet's rows, a wide and a tall one are `ErrMatrixNotSquare` (`align_total`, clause "a row
+   whose length differs from the number of rows"), an undersized ragged one is
+   `ErrMatrixWrongSize` (the size check comes first) — for every aligner -/
+open Biogo.Properties.C08_lin in
+example : ∀ al, (match align al (exCallOver [97, 98] [98]) with | .ok _ => true | _ => false) = true := by
+  intro al; cases al <;> decide
+open Biogo.Properties.C08_lin in
+example : ∀ al, align al { exCall [97] [97] with mat := [[0, -1, -1, 7], [-1, 2, -1, 7], [-1, -1, 2, 7], [7, 7, 7]] }
+    = .error .notSquare := by intro al; cases al <;> decide
+open Biogo.Properties.C08_lin in
+example : ∀ al, align al { exCall [97] [97] with mat := [[0, -1, -1, 7], [-1, 2, -1, 7], [-1, -1, 2, 7]] }
+    = .error .notSquare := by intro al; cases al <;> decide
+open Biogo.Properties.C08_lin in
+example : ∀ al, align al { exCall [97] [97] with mat := [[0, -1, -1], [-1, 2, -1], [-1, -1, 2], [7, 7, 7]] }
+    = .error .notSquare := by intro al; cases al <;> decide
+open Biogo.Properties.C08_lin in
+example : ∀ al, align al { exCall [97] [97] with mat := [[0, -1, -1], [-1, 2]] }
+    = .error (.wrongSize 2 3) := by intro al; cases al <;> decide
 example : formatRows (45 : UInt8) [97, 98, 97] [97, 97] [⟨0, 1, 0, 1, 2⟩, ⟨1, 2, 1, 1, -1⟩, ⟨2, 3, 1, 2, 2⟩]
     = ([97, 98, 97], [97, 45, 97]) := by decide
 
